@@ -13,6 +13,7 @@ RULE = ("AsyncGraph recordings of G_live witness graphs (some connections with s
         "the connections among them, leave the arrays untouched and do not modify their source (also when filtering twice with different "
         "subsets); one evaluation = one clause family on one experiment; non-trivial = experiment whose episodes have different vertex counts; "
         "distinct by spec digest x clause family")
+RULE += ' Built later: a float32 graph stacked before a float64 one; networkx edge receive times; a sent-but-never-received message in the middle of an edge array.'
 MIN_NONTRIVIAL = {"quick": 20, "thorough": 300}
 DECIDING = ["arrays_compared", "filters_checked"]
 ASSUMPTIONS = ["an executed vertex is a record row with seq >= 0; a consumed-message relation is a message with seq_out >= 0 and seq_in >= 0"]
